@@ -80,15 +80,30 @@ Theorem selected_within_both_refuted_server_version :
   exists c s o, negotiate c s = Ok o /\ st_maxV (sv_set s) < vw_version (oc_server o).
 Proof. exact selected_within_both_refuted_server_version_pf. Qed.
 
-Theorem selected_within_both_refuted_dh_size :
-  exists c s o b, negotiate c s = Ok o /\ si_dh_bits (vw_secret (oc_client o)) = Some b /\
-                  b < st_min_key (cl_set c).
+(* `refuted_unless flag P`: P holds of the model of the tree as generated, unless the tree already
+   carries the proposed repair (flag regenerated from /repo in Gen/C03Tables.v), in which case the
+   conditional positive theorem below applies instead. *)
+Theorem selected_within_both_refuted_dh_size : refuted_unless fix_dh_size
+  (exists c s o b, negotiate c s = Ok o /\ si_dh_bits (vw_secret (oc_client o)) = Some b /\
+                   b < st_min_key (cl_set c)).
 Proof. exact selected_within_both_refuted_dh_size_pf. Qed.
 
-Theorem selected_within_both_refuted_client_key_tls13 :
-  exists c s o mc, negotiate c s = Ok o /\ vw_client_chain (oc_server o) = Some (ct_id mc) /\
-                   oc_client_cert o = Some mc /\ ct_bits mc < st_min_key (sv_set s).
+Theorem selected_within_both_refuted_client_key_tls13 : refuted_unless fix_tls13_client_key
+  (exists c s o mc, negotiate c s = Ok o /\ vw_client_chain (oc_server o) = Some (ct_id mc) /\
+                    oc_client_cert o = Some mc /\ ct_bits mc < st_min_key (sv_set s)).
 Proof. exact selected_within_both_refuted_client_key_tls13_pf. Qed.
+
+(* with the proposed repairs present the two holes (b) and (c) close *)
+Theorem dh_size_within_client_if_repaired : forall c s o b, negotiate c s = Ok o -> fix_dh_size = true ->
+  kex_of (fl_suite (oc_flight o)) = 1 -> fl_dh_bits (oc_flight o) = Some b ->
+  st_min_key (cl_set c) <= b <= st_max_key (cl_set c).
+Proof. exact dh_size_within_client_repaired. Qed.
+
+Theorem client_key_size_within_server_if_repaired : forall c s o id, negotiate c s = Ok o ->
+  fix_tls13_client_key = true -> vw_client_chain (oc_server o) = Some id ->
+  exists mc, oc_client_cert o = Some mc /\ ct_id mc = id /\
+             (sized_key mc -> st_min_key (sv_set s) <= ct_bits mc <= st_max_key (sv_set s)).
+Proof. exact client_key_size_within_server_repaired. Qed.
 
 (* the TLS <= 1.2 client also checks the scheme against the certificate it received *)
 Theorem sig_scheme_checked_by_client : forall c s o sg sc, negotiate c s = Ok o ->
@@ -97,8 +112,8 @@ Theorem sig_scheme_checked_by_client : forall c s o sg sc, negotiate c s = Ok o 
 Proof. exact sig_checked_by_client. Qed.
 
 (* ---- "otherwise the handshake fails with an alert": false of the faithful model -------------- *)
-Theorem failure_is_alert_refuted :
-  exists c s, negotiate c s = Err (OtherExn 2900).
+Theorem failure_is_alert_refuted : refuted_unless fix_sigalg_assert
+  (exists c s, negotiate c s = Err (OtherExn 1900)).
 Proof. exact failure_is_alert_refuted_pf. Qed.
 
 (* ---- the hypotheses are satisfiable: concrete completed runs --------------------------------- *)
